@@ -27,7 +27,7 @@
 (***************************************************************************)
 EXTENDS Naturals, Sequences, TLC
 
-CONSTANTS Sizes, Anns, MaxFaults, FaultKinds, MaxHist
+CONSTANTS Sizes, Anns, MaxFaults, FaultKinds, Foreign, MaxHist
 
 VARIABLES n, ann, fk, sState, sErr, sent, rState, rErr, got, wire, conn, nf, hist
 
@@ -114,7 +114,15 @@ Fault(k) ==
     /\ Log([a |-> "Fault", k |-> k, u |-> Head(wire)])
     /\ UNCHANGED <<n, ann, sState, sErr, sent, rState, rErr, got>>
 
-Next == Start \/ SWrite \/ SDone \/ SDisc \/ RRead \/ RDisc \/ \E k \in FaultKinds : Fault(k)
+\* during the negotiation: the stream host offer (right session id) from a foreign full JID -- a
+\* stranger ("from") or another resource of the sender's account ("res").  The job is found by full
+\* JID and session id: refused, nothing changes, nobody connects to the host it names.
+ForeignOffer(w) ==
+    /\ w \in {"from", "res"} /\ \A i \in 1..Len(hist) : hist[i].a # "ForeignOffer"     \* once per behaviour
+    /\ Log([a |-> "ForeignOffer", w |-> w])
+    /\ UNCHANGED mvars
+
+Next == (\E w \in Foreign : ForeignOffer(w)) \/ Start \/ SWrite \/ SDone \/ SDisc \/ RRead \/ RDisc \/ \E k \in FaultKinds : Fault(k)
 
 Spec == Init /\ [][Next]_vars
 FairSpec == Spec /\ WF_vars(Start) /\ WF_vars(SWrite) /\ WF_vars(SDone) /\ WF_vars(SDisc) /\ WF_vars(RRead) /\ WF_vars(RDisc)
@@ -129,6 +137,9 @@ Detectable(k, a) == AnnHash(a) \/ (a = "size" /\ k \in {"Drop", "Cut"})
 P_Safe(a, rs, re, eq)     == (AnnHash(a) /\ Success(rs, re)) => eq
 P_FaultDetected(a, k, nflt, rs, re) == (nflt = 1 /\ Detectable(k, a)) => ~Success(rs, re)
 P_CleanSuccess(nflt, q, rs, re, ss, se, eq) == (q /\ nflt = 0) => (Success(rs, re) /\ Success(ss, se) /\ eq)
+
+\* on the observation of the job before and after the foreign offer, and of the trap
+P_ForeignInert(rs0, re0, rs1, re1, trap) == rs1 = rs0 /\ re1 = re0 /\ trap = 0
 
 AtRest == sState = "Finished" /\ wire = <<>>
 Safe          == P_Safe(ann, rState, rErr, got = File(n))
